@@ -210,7 +210,7 @@ func RunC04(c *lib.Ctx) {
 		}
 		plans[i] = plan{cs, ds, opsA, opsB, restart, be}
 	}
-	parallel(ncases, 12, func(i int) {
+	parallel(ncases, workersN(), func(i int) {
 		p := plans[i]
 		if c.Only != "" && c.Only != p.cs.ID {
 			return
